@@ -35,20 +35,27 @@ Lemma inv_set_pend_other s a p :
   a <> H -> Inv s -> Inv (set_pend s a p).
 Proof. intros Ha [A B C D E F G]. destruct a; try congruence; constructor; cbn; auto. Qed.
 
+(* what starting an operation does *)
+Lemma apply_start_call s a o s' :
+  apply_start s (Call a o) = Some s' ->
+  get_pend s a = None /\ s' = set_pend s a (Some (PStart o)) /\ (forall c, o = HReturn c -> svrDone s = false).
+Proof.
+  unfold apply_start. destruct (get_pend s a) eqn:Eg; [discriminate|]. intro Hs. split; [reflexivity|].
+  destruct o; try (destruct a; cbn in Hs; try discriminate; injection Hs as <-; (split; [reflexivity|intros; discriminate]); fail).
+  - revert Hs. destruct (recv_pending s); intro Hs; [discriminate|]. injection Hs as <-. split; [reflexivity|intros; discriminate].
+  - revert Hs. destruct (svrDone s) eqn:Ed; intro Hs; [discriminate|]. injection Hs as <-. split; [reflexivity|intros; reflexivity].
+Qed.
+
 Lemma inv_start s x s' : Inv s -> apply_start s x = Some s' -> Inv s'.
 Proof.
-  intros I Hs. destruct x as [a o| |]; cbn in Hs.
-  - destruct (get_pend s a) eqn:Eg; [discriminate|].
+  intros I Hs. destruct x as [a o| |].
+  - destruct (apply_start_call _ _ _ _ Hs) as [Eg [-> Hret]].
     destruct I as [A B C D E F G].
-    assert (Hgen : forall o', (forall c, o' <> HReturn c) -> Inv (set_pend s a (Some (PStart o')))).
-    { intros o' Hn. destruct a; constructor; cbn; auto; try (unfold h_phase_ok; cbn; exact Logic.I).
-      unfold h_phase_ok; cbn. destruct o'; try exact Logic.I. exfalso; eapply Hn; reflexivity. }
-    destruct o; try (injection Hs as <-; apply Hgen; intros c0 Hc; discriminate).
-    destruct (svrDone s) eqn:Ed; [discriminate|]. injection Hs as <-.
     destruct a; constructor; cbn; auto; try (unfold h_phase_ok; cbn; exact Logic.I).
-  - injection Hs as <-. destruct I as [A B C D E F G]. destruct (cctx s =? 0); [|constructor; auto].
+    unfold h_phase_ok; cbn. destruct o; try exact Logic.I. apply G. eapply Hret. reflexivity.
+  - cbn in Hs. injection Hs as <-. destruct I as [A B C D E F G]. destruct (cctx s =? 0); [|constructor; auto].
     constructor; cbn; auto.
-  - injection Hs as <-. destruct I as [A B C D E F G]. destruct (cctx s =? 0); [|constructor; auto].
+  - cbn in Hs. injection Hs as <-. destruct I as [A B C D E F G]. destruct (cctx s =? 0); [|constructor; auto].
     constructor; cbn; auto.
 Qed.
 
@@ -61,6 +68,7 @@ Ltac split_in H :=
          | In _ (if ?c then _ else _) => destruct c eqn:?
          | In _ (match ?x with _ => _ end) => destruct x eqn:?
          | In _ (srv_write _ _ _ _) => unfold srv_write in H
+         | In _ (srv_recv _ _) => unfold srv_recv in H
          end.
 
 Lemma has_room_req_spec s : has_room_req s = true -> (length (reqQ s) < req_capn)%nat.
